@@ -7,6 +7,8 @@ fd.N* with param['N*'].
 import contextlib
 import io
 import itertools
+import os
+import shutil
 
 import numpy as np
 
@@ -140,6 +142,52 @@ def _attr_case_style(task, parfile):
             if getattr(fd, h) != p[h] or abs(getattr(fd, 'inverse_' + h)
                                              * p[h] - 1) > 1e-15:
                 bad.append(('spacing-attribute', c))
+    return {'task': list(task), 'bad': bad}
+
+
+def parfile_case(task):
+    """The grid described by a parameter file, through reading.parameters and
+    FiniteDifference: number of points and last point per axis, for domain
+    bounds / spacings whose quotient is not exactly representable."""
+    from aurel import reading
+    from aurel.finitedifference import FiniteDifference
+    xmin, nint, dx = task           # nint intervals of width dx
+    xmax = xmin + nint * dx
+    sim = 'parsim'
+    root = runner.scratch_root()
+    bad = []
+    try:
+        os.makedirs(os.path.join(root, sim, 'output-0000', sim))
+        with open(os.path.join(root, sim, 'output-0000', sim + '.par'),
+                  'w') as f:
+            f.write('ActiveThorns = "CoordBase CartGrid3D"\n')
+            for c in 'xyz':
+                f.write(f'CoordBase::{c}min = {xmin!r}\n'
+                        f'CoordBase::{c}max = {xmax!r}\n'
+                        f'CoordBase::d{c} = {dx!r}\n'
+                        f'CoordBase::boundary_shiftout_{c}_lower = 1\n')
+        old = os.environ.get('SIMLOC')
+        os.environ['SIMLOC'] = root + '/'
+        try:
+            with quiet():
+                p = reading.parameters(sim)
+                fd = FiniteDifference(p, verbose=False)
+        finally:
+            if old is None:
+                del os.environ['SIMLOC']
+            else:
+                os.environ['SIMLOC'] = old
+        # lower boundary point shifted out: nint points, the last one at
+        # xmax - dx
+        if p['Nx'] != nint or fd.Nx != nint or len(fd.xarray) != nint:
+            bad.append(('parfile-npoints', p['Nx'], nint))
+        elif abs(fd.xmax - (xmax - dx)) > 1e-9 * dx + 4 * np.spacing(
+                abs(xmax)):
+            bad.append(('parfile-extent', float(fd.xmax), xmax - dx))
+    except Exception as ex:      # noqa: BLE001
+        bad.append(('parfile-raised', repr(ex)[:150]))
+    finally:
+        shutil.rmtree(root, ignore_errors=True)
     return {'task': list(task), 'bad': bad}
 
 
@@ -303,6 +351,15 @@ def main(tier):
                           {'kind': 'attr', 'task': list(t)})
     nrt = runner.guard(run, 'C16:convert:raised', convert_block, run,
                        default=0)
+    # grids described by parameter files
+    ptasks = [(xmin, nint, dx) for xmin in (-0.6, -0.3, 0.0, -0.5, 1 / 3)
+              for nint in (3, 6, 12, 20) for dx in (0.1, 0.3, 0.125, 0.05)]
+    for t, r_ in zip(ptasks, runner.pmap(parfile_case, ptasks, workers=4)):
+        run.seen(('parfile',) + tuple(t))
+        for bad in r_['bad']:
+            run.violation(f"C16:{bad[0]}", f"xmin={t[0]} intervals={t[1]} "
+                          f"dx={t[2]}: {bad}", {'kind': 'parfile',
+                                                'task': list(t)})
     # trimming helpers
     ttasks = []
     for o in ORDERS + (1, 3, 5, 7, 10, 12):
